@@ -1,18 +1,5 @@
-\* Design-level counterexample for the unchanged tree: the as_built client design (Content-Length never
-\* looked at) is put in the place of the conforming designs; TLC must find a state violating NoShortBody.
-CONSTANTS SLKinds = {1}
-          HdrKinds = {1}
-          MaxHdrs = 0
-          CLVals <- CLValsQuick
-          CLNames = {0}
-          CLDups <- NoDups
-          MaxBody = 2
-          BodyByPos = TRUE
-          BodyAlpha = {120}
-          FragAll = {"end"}
-          FragDepth = 0
-          StallSL = {1}
-          StallFrags = FALSE
+\* Design-level counterexample for the unchanged tree: the as_built client design (Content-Length never looked at) in the place of the conforming designs; TLC must find a state violating NoShortBody.
+CONSTANTS Fams <- FamsTinyCL
           Conforming = {"as_built"}
           Others = {}
 INIT Init
